@@ -115,14 +115,14 @@ def gen_schedules(ctx, d):
         if h is None or inv not in r.violated:
             raise Broken("deviation %s no longer violates %s in the model (vacuous deviation): %s" % (dev, inv, r.violated))
         scheds.append({"label": "dev:" + dev, "steps": h})
-    n = 220 if quick else 2500
+    n = 220 if quick else 900
     hs, _ = T.simulate_hists(ctx, d, SPEC, "Sim_GroupFailover.cfg", num=n, depth=22, seed=ctx.seed, timeout=900)
     for h in hs:
         scheds.append({"label": "sim", "steps": h})
-    hs2, _ = T.simulate_hists(ctx, d, SPEC, "Sim_GroupFailover_sensible.cfg", num=(150 if quick else 2000), depth=26, seed=ctx.seed + 7, timeout=900)
+    hs2, _ = T.simulate_hists(ctx, d, SPEC, "Sim_GroupFailover_sensible.cfg", num=(150 if quick else 700), depth=26, seed=ctx.seed + 7, timeout=900)
     for h in hs2:
         scheds.append({"label": "sim:sensible", "steps": h})
-    hs3, _ = T.simulate_hists(ctx, d, SPEC, "Sim_GroupFailover_clean.cfg", num=(150 if quick else 2000), depth=26, seed=ctx.seed + 13, timeout=900)
+    hs3, _ = T.simulate_hists(ctx, d, SPEC, "Sim_GroupFailover_clean.cfg", num=(150 if quick else 900), depth=26, seed=ctx.seed + 13, timeout=900)
     for h in hs3:
         scheds.append({"label": "sim:clean", "steps": h})
     return scheds
@@ -133,6 +133,19 @@ def run_pipeline(ctx, scheds, tag="main"):
     runs = split(rows)
     if len(runs) != len(scheds):
         raise Broken("harness recorded %d runs for %d schedules" % (len(runs), len(scheds)))
+    # schedules in which the embedded etcd failed an operation (overloaded machine) are no evidence either way: dropped, counted
+    keep = [i for i, run in enumerate(runs) if not any(r.get("infra") for r in run)]
+    dropped = len(runs) - len(keep)
+    if dropped > max(3, len(runs) // 20):
+        bad = next(r for run in runs for r in run if r.get("infra"))
+        raise Broken("%d of %d schedules hit an etcd/store failure code (UNKNOWN_SERVER_ERROR, or REQUEST_TIMED_OUT with a live session): embedded etcd too slow, no verdict: %s"
+                     % (dropped, len(runs), json.dumps({k: v for k, v in bad.items() if k != "st"})[:600]))
+    if dropped:
+        ctx.log("%d schedules dropped: etcd/store failure codes (machine overloaded)" % dropped)
+        runs = [runs[i] for i in keep]
+        scheds[:] = [scheds[i] for i in keep]
+        rows = [r for run in runs for r in run]
+    ctx.infra_dropped = getattr(ctx, "infra_dropped", 0) + dropped
     consumed, viol, r = layers.observe(ctx, DIR, "Obs_GroupFailover.tla", "Obs_GroupFailover.cfg", rows, name="obs-" + tag)
     diag = [(v[0], v[1]) for v in r.prints["OBS"][-1].get("diag", [])]
     return rows, runs, hits, viol, diag
@@ -184,6 +197,8 @@ def check(ctx, prop):
         first.add((si, inv))
         ev = rows[line - 1]
         cls = classify(runs[si], k)
+        if cls == "reacquired-with-stale-copy" and inv.startswith("G14"):
+            cls = classify([x for x in runs[si][k:k + 1]], 0)  # G14 is about the lease, not about the copy
         # the class "reacquired-with-stale-copy" already names the discriminating situation; otherwise the request kind does
         sig = "%s@%s" % (inv, cls) if cls == "reacquired-with-stale-copy" else "%s@%s:%s" % (inv, ev.get("api", ev["ev"]), cls)
         path = save_replay(prop, "sched-%s.json" % re.sub(r"\W", "_", sig), {"schedule": scheds[si], "trace": runs[si], "line": ev, "predicate": inv})
@@ -219,9 +234,12 @@ def check(ctx, prop):
         todo = todo[todo.index(bad) + 1:]
     else:
         conf["rejected"] += len(todo)
-    st = None
-    if not violations or os.environ.get("VERIF_FORCE_SELFTEST"):
+    try:
         st = self_test(ctx, runs)
+    except Broken as e:
+        if not violations:
+            raise
+        st = {"failed_on_a_tree_with_violations": str(e)[:300]}  # never turn a verdict into exit 2
     level = "model_checking"
     drift = conf["rejected"] > 0
     if drift and not violations:
@@ -241,7 +259,7 @@ def check(ctx, prop):
         "failback_schedules": sum(1 for run in runs if failback(run)),
         "rule": "schedules = TLC counterexamples of the 12 named deviations + TLC -simulate behaviours (seeded; repaired design and pinned design); evaluations = requests judged; non-trivial = two different brokers served a non-Fetch request while the group existed (a failover really happened); failback = the serving broker changed at least twice",
         "deviation_schedules": sorted(DEVIATIONS), "conformance": ("drift" if drift else "accepted"), "conformance_detail": conf,
-        "binding_self_test": st, "gate_hits": hits, "skipped_steps": skipped,
+        "binding_self_test": st, "gate_hits": hits, "skipped_steps": skipped, "schedules_dropped_for_etcd_failures": getattr(ctx, "infra_dropped", 0),
         "all_predicates_violation_lines": all_viol,
         "diagnostics": {
             "served_inside_expiry_detection_window": win,
